@@ -803,6 +803,10 @@ class QSerialization(DeconstructedSerialization):
         Q.AND: ' & ',
     }
 
+    if hasattr(Q, 'XOR'):
+        # Django >= 4.1
+        child_separators[Q.XOR] = ' ^ '
+
     @classmethod
     def serialize_to_signature(cls, q):
         """Serialize a Q object to JSON-compatible signature data.
@@ -870,8 +874,18 @@ class QSerialization(DeconstructedSerialization):
         elif num_children == 1:
             child = value.children[0]
 
-            result.append('models.Q(%s=%s)' % (child[0],
-                                               serialize_to_python(child[1])))
+            if isinstance(child, Q):
+                q_args = serialize_to_python(child)
+            else:
+                q_args = '%s=%s' % (child[0], serialize_to_python(child[1]))
+
+            if q.connector != q.default:
+                # A single child can't be joined using an operator, so the
+                # connector needs to be passed explicitly.
+                q_args = '%s, _connector=%s' % (
+                    q_args, serialize_to_python(q.connector))
+
+            result.append('models.Q(%s)' % q_args)
         else:
             children = []
 
